@@ -512,6 +512,25 @@ func runC19(p *an.Prog, r *an.Run, tier string) {
 		nSrc++
 		judge(sv.fn, sv.v, sv.at, 2)
 	}
+	// the request's RemoteAddr is the network stack's statement of where the connection comes from; nothing in the
+	// repository rewrites it (a "real IP" middleware assigning it from X-Forwarded-For makes every address source above
+	// report a header the peer chose)
+	for _, fn := range p.Repo {
+		if p.IsTestFunc(fn) || isTestDoublePkg(fn) {
+			continue
+		}
+		an.AllInstrs(fn, func(in ssa.Instruction) {
+			st, ok := in.(*ssa.Store)
+			if !ok {
+				return
+			}
+			fv := an.FieldOf(st.Addr)
+			if fv == nil || fv.Name() != "RemoteAddr" || fv.Pkg() == nil || fv.Pkg().Path() != "net/http" {
+				return
+			}
+			bad = append(bad, an.FuncName(fn)+" assigns http.Request.RemoteAddr at "+p.Pos(st.Pos())+": every transport reports that field as the peer's address, so a host registering without an override is advertised at whatever was written there (a request header under the peer's control)")
+		})
+	}
 	r.Floor("remote-addr-sources", nSrc, 4)
 	r.Check(len(bad) == 0, "refuse-unknown", "jsonrpc2.remote-addr-sources", token.NoPos, "address-less transports report no address", "%s", strings.Join(dedup(bad), "; "))
 
@@ -1341,6 +1360,26 @@ func runC20(p *an.Prog, r *an.Run, tier string) {
 			bad = append(bad, "the periodic UpdatePeers call is not in the loop")
 		}
 		d := p.Derives(0, c.Common().Args[1])
+		// ... nor one that lives as long as the agent or as long as Start: a context kept in a field (cancelled by one Stop
+		// and dead for every later run) or handed in as a parameter ends the keep-alives of a loop that is still running
+		isCtx := func(t types.Type) bool {
+			n := namedOf(t)
+			return n != nil && n.Obj().Pkg() != nil && n.Obj().Pkg().Path() == "context" && n.Obj().Name() == "Context"
+		}
+		for _, n := range d.Nodes {
+			switch x := n.(type) {
+			case *ssa.UnOp:
+				if x.Op == token.MUL && isCtx(x.Type()) {
+					if fv := an.FieldOf(x.X); fv != nil && !assignedPerRun(p, fv) {
+						bad = append(bad, "the keep-alives are sent with the context kept in the field "+fv.Name()+" ("+p.Pos(x.Pos())+"): once it has been cancelled (by a Stop) every keep-alive of every later run fails at once")
+					}
+				}
+			case *ssa.Parameter:
+				if isCtx(x.Type()) && x.Parent() == serve {
+					bad = append(bad, "the keep-alives are sent with a context handed to the loop from outside ("+x.Name()+"): when it ends, the keep-alives of a loop that is still running fail")
+				}
+			}
+		}
 		for _, n := range d.Nodes {
 			if cc, ok := n.(*ssa.Call); ok {
 				if g := an.CallObj(cc); g != nil && g.Pkg() != nil && g.Pkg().Path() == "context" && (g.Name() == "WithTimeout" || g.Name() == "WithDeadline" || g.Name() == "WithCancel") {
@@ -1419,4 +1458,21 @@ func runC20(p *an.Prog, r *an.Run, tier string) {
 func isGlobalLoad(v ssa.Value, name string) bool {
 	u, ok := v.(*ssa.UnOp)
 	return ok && u.Op == token.MUL && isGlobalNamed(u.X, name)
+}
+
+// assignedPerRun: the field is assigned in a method named Start itself (outside any closure handed to sync.Once), i.e.
+// every run gets a new value.
+func assignedPerRun(p *an.Prog, fv *types.Var) bool {
+	ok := false
+	for _, fn := range p.Repo {
+		if fn.Parent() != nil || fn.Name() != "Start" || p.IsTestFunc(fn) {
+			continue
+		}
+		an.AllInstrs(fn, func(in ssa.Instruction) {
+			if st, isSt := in.(*ssa.Store); isSt && an.FieldOf(st.Addr) == fv {
+				ok = true
+			}
+		})
+	}
+	return ok
 }
